@@ -414,6 +414,10 @@ def bundle(cls: type) -> Bundle:
             # Special-case the upper-cased `Roles`, as it'll often be a class-def
             setattr(bundle, "roles", val)
         elif isinstance(val, Role):
+            # Roles take the name of their attribute, as Signals do.
+            # (An un-named `Role` equals every other un-named one: `Host, Device = 2 * h.Role()` would be one role.)
+            if val.name is None:
+                val.name = key
             roles_dict[key] = val
         elif is_bundle_attr(val):
             setattr(bundle, key, val)
